@@ -207,6 +207,9 @@ def OPS(E):
         # the signer is used on after a failing call: the leaf is given up (or the call repeated); every leaf that was accepted must still get a verifying signature
         # a signature re-assembled from its parts with an empty builder; a failing close is repeated on the same builder and must then give the fault-free result
         'builder_close_retry': (with_sig, one('sigbuild 0 0 1', ('rc', 'sig', 'retry', 'stage'))),
+        # plain tree builder (7 and 11 leaves: the close has sub-trees to join); every failing call is repeated once on the same builder: the tree must be the fault-free one
+        'treebuild_retry_7': (base, one('treebuild 0 7 3', ('rc', 'root', 'rootlevel', 'leaves', 'completed', 'handle_on_error'))),
+        'treebuild_retry_11': (base, one('treebuild 0 11 4', ('rc', 'root', 'rootlevel', 'leaves', 'completed', 'handle_on_error'))),
         'blocksign_continue': (with_net, one('blocksign 0 6 1 1 9 cont=1', ('rc', 'nsig', 'badsig', 'failed_calls', 'handle_on_error', 'completed'))),
         'blocksign_continue_plain': (with_net, one('blocksign 0 7 0 0 5 cont=1', ('rc', 'nsig', 'badsig', 'failed_calls', 'handle_on_error', 'completed'))),
     }
@@ -293,6 +296,15 @@ def worker(job, r):
                     r.viol('objects-unusable-after-failure:%s:handle-returned-with-error' % name, 'allocation %s of %d failed; KSI_BlockSigner_addLeaf reported an error but handed out a handle (leaf %s)' % (tag, N, hoe), 'op=%s failat=%s' % (name, tag))
                 elif completed == '1' and nfail is not None and nsig is not None and int(nsig) < nleaves - int(nfail):
                     r.viol('objects-unusable-after-failure:%s:signatures-missing' % name, 'allocation %s of %d failed in %s call(s); only %s of %d leaves got a signature although the signer was used on (rc=%s)' % (tag, N, nfail, nsig, nleaves, brc), 'op=%s failat=%s' % (name, tag))
+            if name.startswith('treebuild_retry') and failed and res and isinstance(res[0], tuple) and len(fs) == 1:
+                _, trc, troot, tlvl, tleaves, tdone, thoe = res[0]
+                if thoe is not None:
+                    r.viol('objects-unusable-after-failure:treebuilder:handle-returned-with-error', 'allocation %s of %d failed: addDataHash reported an error but handed out a leaf handle' % (tag, N), 'op=%s failat=%s' % (name, tag))
+                elif tdone == '1' and (troot, tlvl, tleaves) != tuple(ref[0][2:5]):
+                    r.viol('not-repeatable:treebuilder', 'allocation %s of %d failed; the failing call was repeated on the same builder and the tree differs from the fault-free one: root %s level %s leaves %s, fault-free %s' % (
+                        tag, N, (troot or '')[:16], tlvl, tleaves, tuple(x[:16] if isinstance(x, str) else x for x in ref[0][2:5])), 'op=%s failat=%s' % (name, tag))
+                elif tdone == '1':
+                    r.count('treebuilder_repeated_ok')
             if name == 'builder_close_retry' and failed and res and isinstance(res[0], tuple) and res[0][1] not in ('0', None) and res[0][4] is None and len(fs) == 1:
                 _, brc, bsig, retry, _st = res[0]
                 if retry != '0' or bsig != ref[0][2]:
